@@ -661,6 +661,7 @@ type LinkState struct {
 	Delivered  int64
 	Consumed   int64
 	FromTag    string
+	Reverse    int // ID of the opposite direction's link
 }
 
 func (n *Network) linkStateLocked(l *Link) LinkState {
@@ -673,6 +674,7 @@ func (n *Network) linkStateLocked(l *Link) LinkState {
 		Stalled:    l.stallWaiters - l.stallRelease,
 		Written:    l.Written, Delivered: l.Delivered, Consumed: l.Consumed,
 		FromTag: l.From.Tag,
+		Reverse: l.To.out.ID,
 	}
 }
 
